@@ -1,5 +1,5 @@
 (* C21 — proofs about the policy model (models/Policy.v). *)
-From Coq Require Import List NArith ZArith Bool Lia.
+From Coq Require Import List NArith ZArith Bool Lia String.
 Import ListNotations.
 Require Import V.lib.Bytes V.models.Policy.
 Open Scope N_scope.
@@ -644,3 +644,49 @@ Proof.
   { destruct p as [[[[[[]|[]|]|[[]|[]|]|]|[[[]|[]|]|[[]|[]|]|]|]|[[[[]|[]|]|[[]|[]|]|]|[[[]|[]|]|[[]|[]|]|]|]|]|[[[[[]|[]|]|[[]|[]|]|]|[[[]|[]|]|[[]|[]|]|]|]|[[[[]|[]|]|[[]|[]|]|]|[[[]|[]|]|[[]|[]|]|]|]|]|]; try reflexivity; contradiction E; reflexivity. }
   revert Hm. destruct p as [[[[[[]|[]|]|[[]|[]|]|]|[[[]|[]|]|[[]|[]|]|]|]|[[[[]|[]|]|[[]|[]|]|]|[[[]|[]|]|[[]|[]|]|]|]|]|[[[[[]|[]|]|[[]|[]|]|]|[[[]|[]|]|[[]|[]|]|]|]|[[[[]|[]|]|[[]|[]|]|]|[[[]|[]|]|[[]|[]|]|]|]|]|]; intro Hm; try discriminate Hm; apply alt_lit_match_iff.
 Qed.
+
+(* ------------------------------------------------------------------ an alternative is the conjunction of its atoms *)
+Lemma plug_conn1_atoms : forall c a, check_plug_conn1 c a = true <->
+  check_names (a_plug_names a) (f_iface (k_plug c)) (f_name (k_plug c)) = true /\
+  check_names (a_slot_names a) (f_iface (k_slot c)) (f_name (k_slot c)) = true /\
+  attrs_check (Some (conn_ctx c)) (a_plug_attrs a) (side_attrs (k_plug c)) = true /\
+  attrs_check (Some (conn_ctx c)) (a_slot_attrs a) (side_attrs (k_slot c)) = true /\
+  check_snap_type (f_type (k_slot c)) (a_slot_snap_types a) = true /\
+  check_id (od_snap_id (slot_decl (k_decls c))) (a_slot_snap_ids a) no_special = true /\
+  check_id (od_pub_id (slot_decl (k_decls c))) (a_slot_pub_ids a)
+           (one_special (bs "$PLUG_PUBLISHER_ID"%string) (od_pub_id (plug_decl (k_decls c)))) = true /\
+  check_on_classic (k_env c) (a_on_classic a) = true /\
+  check_on_core_desktop (k_env c) (a_on_core_desktop a) = true /\
+  check_device_scope (k_env c) (a_device a) = true.
+Proof.
+  intros c a. unfold check_plug_conn1, check_plug_conn1_gen, check_names. cbv zeta.
+  rewrite !andb_true_iff. tauto.
+Qed.
+
+Lemma slot_conn1_atoms : forall c a, check_slot_conn1 c a = true <->
+  check_names (a_plug_names a) (f_iface (k_plug c)) (f_name (k_plug c)) = true /\
+  check_names (a_slot_names a) (f_iface (k_slot c)) (f_name (k_slot c)) = true /\
+  attrs_check (Some (conn_ctx c)) (a_plug_attrs a) (side_attrs (k_plug c)) = true /\
+  attrs_check (Some (conn_ctx c)) (a_slot_attrs a) (side_attrs (k_slot c)) = true /\
+  check_snap_type (f_type (k_slot c)) (a_slot_snap_types a) = true /\
+  check_snap_type (f_type (k_plug c)) (a_plug_snap_types a) = true /\
+  check_id (od_snap_id (plug_decl (k_decls c))) (a_plug_snap_ids a) no_special = true /\
+  check_id (od_pub_id (plug_decl (k_decls c))) (a_plug_pub_ids a)
+           (one_special (bs "$SLOT_PUBLISHER_ID"%string) (od_pub_id (slot_decl (k_decls c)))) = true /\
+  check_on_classic (k_env c) (a_on_classic a) = true /\
+  check_on_core_desktop (k_env c) (a_on_core_desktop a) = true /\
+  check_device_scope (k_env c) (a_device a) = true.
+Proof.
+  intros c a. unfold check_slot_conn1, check_slot_conn1_gen, check_names. cbv zeta.
+  rewrite !andb_true_iff. tauto.
+Qed.
+
+(* the on-core-desktop atom: the constraint's value must be the system's core-desktop flag; whether the system is classic
+   plays no role; and the monitor's own statement of the atom agrees *)
+Lemma on_core_desktop_atom : forall e b, check_on_core_desktop e (Some b) = Bool.eqb b (e_core_desktop e).
+Proof. reflexivity. Qed.
+Lemma on_core_desktop_classic_irrelevant : forall cl cl' os os' cd m st c,
+  check_on_core_desktop (mkEnv cl os cd m st) c = check_on_core_desktop (mkEnv cl' os' cd m st) c.
+Proof. reflexivity. Qed.
+Lemma core_desktop_ref_eq : forall e c, core_desktop_ref e c = check_on_core_desktop e c.
+Proof. intros e [[|]|]; unfold core_desktop_ref, check_on_core_desktop; destruct (e_core_desktop e); reflexivity. Qed.
